@@ -7,7 +7,9 @@ git -C /repo worktree add -q --detach $W HEAD || exit 2
 trap 'git -C /repo worktree remove --force $W; git -C /repo worktree prune' EXIT
 if ! git -C $W apply --check $S/patch.diff 2>/dev/null; then echo "PATCH DOES NOT APPLY to HEAD"; git -C $W apply --3way $S/patch.diff 2>&1 | tail -2 || exit 3; else git -C $W apply $S/patch.diff; fi
 git -C $W diff --stat | tail -1
-cp /repo/tenpy/linalg/_npc_helper*.so $W/tenpy/linalg/ 2>/dev/null
+if grep -q "_npc_helper.pyx" $S/patch.diff; then
+  SO=$(cd "$(dirname "$0")/.." && VERIF_REPO=$W /venv/bin/python -m vlib.cybuild | sed -n 's/^built: //p'); echo "fresh compiled module for the patched .pyx: $SO"; cp $SO $W/tenpy/linalg/
+else cp /repo/tenpy/linalg/_npc_helper*.so $W/tenpy/linalg/ 2>/dev/null; fi
 echo "--- demo on patched:"; (cd $S && PYTHONPATH=$W timeout 900 /venv/bin/python demo.py 2>&1 | tail -2; echo "exit=${PIPESTATUS[0]}")
 echo "--- demo on clean:";   (cd $S && PYTHONPATH=/repo timeout 900 /venv/bin/python demo.py 2>&1 | tail -2; echo "exit=${PIPESTATUS[0]}")
 rm -f $W/tenpy/linalg/_npc_helper*.so
